@@ -4,6 +4,7 @@ import (
 	"fmt"
 	"go/token"
 	"go/types"
+	"strings"
 
 	"golang.org/x/tools/go/ssa"
 )
@@ -193,7 +194,7 @@ func runR07_2(c *Ctx, r *R) {
 		}
 		loads := fieldMethodCalls(f, "sendWindow", "Load")
 		adds := fieldMethodCalls(f, "sendWindow", "Add")
-		n := 0
+		n, nSize, nFrac := 0, 0, 0
 		for _, ret := range returnsOf(f) {
 			if len(ret.Results) != 1 || sa.classOf(ret.Results[0], ret.Block(), false, 0) != SOK {
 				continue // only returns of the OK constant admit the message
@@ -215,35 +216,49 @@ func runR07_2(c *Ctx, r *R) {
 				r.Bad(key, ret.Pos(), "decrementSendWindow admits a message without debiting exactly len(data) from the send window on that path: the sender's view of the window drifts from what the receiver acknowledges")
 				continue
 			}
-			// admission condition: the innermost dominating comparison on the loaded window
-			var th *threshold
-			for _, cd := range pathConds(ret.Block()) {
-				for _, rel := range relsOf(cd) {
-					for _, ld := range loads {
-						if t, ok := thresholdOf(e, rel, ld, sizeVal); ok && th == nil {
-							tt := t
-							th = &tt
+			// admission condition: on every way from the window load to this return, the innermost comparison on the
+			// loaded window (two returns, or one return behind `fits || half-window`, are the same thing)
+			var ldBlock *ssa.BasicBlock
+			for _, ld := range loads {
+				if ld.Block().Dominates(ret.Block()) {
+					ldBlock = ld.Block()
+				}
+			}
+			var problems, descs []string
+			for _, alt := range backPaths(ret.Block(), ldBlock, 16) {
+				var th *threshold
+				for _, cd := range alt {
+					for _, rel := range relsOf(cd) {
+						for _, ld := range loads {
+							if t, ok := thresholdOf(e, rel, ld, sizeVal); ok && th == nil {
+								tt := t
+								th = &tt
+							}
 						}
 					}
 				}
-			}
-			if th == nil {
-				r.Bad(key, ret.Pos(), "admission is not conditioned on the current send window")
-				continue
-			}
-			if th.kind == "size" {
-				if th.c == 0 {
-					r.OK(key, ret.Pos(), "admits when window >= size, debits size")
-				} else {
-					r.Bad(key, ret.Pos(), "admits only when window > size: a message that exactly fits the window is never admitted")
+				switch {
+				case th == nil:
+					problems = append(problems, "admission is not conditioned on the current send window on some path")
+				case th.kind == "size" && th.c == 0:
+					nSize++
+					descs = append(descs, "window >= size")
+				case th.kind == "size":
+					problems = append(problems, "admits only when window > size: a message that exactly fits the window is never admitted")
+				default:
+					nFrac++
+					ts = th
+					descs = append(descs, "window >= "+th.desc)
 				}
+			}
+			if len(problems) > 0 {
+				r.Bad(key, ret.Pos(), "%s", strings.Join(problems, "; "))
 				continue
 			}
-			ts = th
-			r.OK(key, ret.Pos(), "admits oversize messages when window >= %s, debits size", th.desc)
+			r.OK(key, ret.Pos(), "admits when %s, debits size", strings.Join(descs, " or when "))
 		}
-		if n < 2 {
-			r.Unk(fnKey(f)+"/admit", f.Pos(), "expected two admitting returns (fits / half-window), found %d", n)
+		if n == 0 || nSize == 0 || nFrac == 0 {
+			r.Unk(fnKey(f)+"/admit", f.Pos(), "expected both admission alternatives (message fits / half of the window is free), found fits=%d half-window=%d in %d admitting returns", nSize, nFrac, n)
 		}
 	}
 	if f := r.Need("mpx", "channel.ReceiveAsync"); f != nil {
